@@ -398,10 +398,12 @@ class Check:
             "repo_hash": repo_hash(),
             "framework_hash": framework_hash(),
         }
-        tmp = os.path.join(VERIF, "evidence", ".%s.tmp%d" % (self.prop, os.getpid()))
+        ev_dir = os.path.join(CACHE, "mutant-evidence") if os.environ.get("VERIF_NO_EVIDENCE") else os.path.join(VERIF, "evidence")
+        os.makedirs(ev_dir, exist_ok=True)
+        tmp = os.path.join(ev_dir, ".%s.tmp%d" % (self.prop, os.getpid()))
         with open(tmp, "w") as f:
             json.dump(ev, f, indent=1, sort_keys=True)
-        os.replace(tmp, os.path.join(VERIF, "evidence", "%s.json" % self.prop))
+        os.replace(tmp, os.path.join(ev_dir, "%s.json" % self.prop))
         log("%s %s: %d violation(s), %d known finding(s), %.1fs" % (self.prop, self.tier, len(self.violations), len(self.known), time.time() - self.t0))
         return 1 if self.violations else 0
 
